@@ -1,10 +1,13 @@
 SPECIFICATION Spec
 CONSTANTS
   InteriorRule = "doubleA"
+  BLo = 0
+  BHi = 1
   TriLo = 0
   TriHi = 1
   PtLo <- Minus1
   PtHi = 2
   Shifts <- ShiftSet
+  TriSel <- AllTris
 INVARIANTS Contract RotInv TransInv TwentyFour
 CHECK_DEADLOCK FALSE
